@@ -7,7 +7,9 @@ product can be sharded over processes without materialising it.
 import itertools
 
 P1, P2, PR = "Player 1", "Player 2", "Probabilistic"
-ACTIONS = "abcde"
+# action names are chosen so that some are substrings / prefixes of others ("a" in "ab", "b" in "ab", "a" in "ba"):
+# name-keyed logic that confuses membership with containment then shows up in every universe
+ACTIONS = ("a", "ab", "b", "ba", "aa")
 
 VECT_DYADIC = {1: [(1,)], 2: [(0.5, 0.5), (0.25, 0.75)]}
 VECT_3WAY = {1: [(1,)], 2: [(0.5, 0.5), (0.25, 0.75)], 3: [(0.25, 0.25, 0.5), (0.5, 0.25, 0.25)]}
